@@ -217,8 +217,10 @@ def main(pid, tier, seed, replay=None, only=None):
     ev = {'property_id': pid, 'tier': tier, 'seed': int(seed), 'level': level, 'coverage': cov,
           'assumptions': getattr(mod, 'ASSUMPTIONS', []), 'wall_s': round(wall, 2), 'violations': nviol}
     if not replay and only is None:
-        os.makedirs(os.path.join(ROOT, 'evidence'), exist_ok=True)
-        with open(os.path.join(ROOT, 'evidence', pid + '.json'), 'w') as f:
+        # evidence describes /repo only: runs against another tree (VERIF_REPO, used for seeded changes) go to scratch/
+        evdir = os.path.join(ROOT, 'evidence') if os.path.realpath(REPO) == '/repo' else os.path.join(ROOT, 'scratch', 'evidence-other-tree')
+        os.makedirs(evdir, exist_ok=True)
+        with open(os.path.join(evdir, pid + '.json'), 'w') as f:
             json.dump(ev, f, indent=1, default=str)
     for fid, k in sorted(known.items()):
         print('KNOWN-FINDING: property=%s %s: %s (seen %d times this run)' % (pid, fid, k['what'], k['count']))
